@@ -31,10 +31,11 @@ type Opt struct {
 	Reuse        int // percentage: a cut re-binds the name of an argument its call consumes (x <- new f(x))
 	Vary         int // percentage: a written type uses the unfolding of a name instead of the name
 	Capture      int // percentage: the context is captured by a server that the client splits and uses twice
+	CutFwd       int // percentage of tail calls spelt  x <- new f(...); fwd self x
 }
 
 func DefaultOpt(r *rand.Rand) Opt {
-	o := Opt{MaxSplit: 3, Pol: 4, Alias: 30, ExplicitSelf: 10, ExplicitProv: 10, Exec: 15, Print: 12, TopMax: 3, Fuel: 3, MultiProv: 25, Drop: 12, Split: 14, Tail: 8}
+	o := Opt{MaxSplit: 3, Pol: 4, Alias: 30, ExplicitSelf: 10, ExplicitProv: 10, Exec: 15, Print: 12, TopMax: 3, Fuel: 3, MultiProv: 25, Drop: 12, Split: 14, Tail: 8, CutFwd: 25}
 	switch r.Intn(10) {
 	case 0, 1, 2:
 		o.Mixed = true
@@ -284,7 +285,7 @@ func (g *G) producer(A *Ty, fuel int) (func(*Term) *Term, string) {
 	if g.libBase(A) == "srv" {
 		fn := g.srvFunc(A)
 		return func(c *Term) *Term {
-			return &Term{Op: "new", Y: a, Body: &Term{Op: "call", Fn: fn}, Cont: c}
+			return &Term{Op: "new", Y: a, Body: g.cutCall(fn, nil), Cont: c}
 		}, a
 	}
 	if U.K == KUnit && g.coin(70) {
@@ -319,7 +320,7 @@ func (g *G) producer(A *Ty, fuel int) (func(*Term) *Term, string) {
 	}
 	fn := g.mkFunc(A, fuel)
 	return func(c *Term) *Term {
-		return &Term{Op: "new", Y: a, Body: &Term{Op: "call", Fn: fn}, Cont: c}
+		return &Term{Op: "new", Y: a, Body: g.cutCall(fn, nil), Cont: c}
 	}, a
 }
 
@@ -380,7 +381,7 @@ func (g *G) recConsumer(T *Ty, q Mode, self string) *Term {
 		cn := g.consFunc(g.libType("nat", m), q, 1)
 		return &Term{Op: "case", X: "x", Brs: []CaseBr{
 			{"nil", "u", g.pr(&Term{Op: "wait", X: "u", Cont: &Term{Op: "close", X: "self"}})},
-			{"cons", "c", &Term{Op: "recv", X: "c", Y: "h", Z: "t", Cont: &Term{Op: "new", Y: "r", Body: &Term{Op: "call", Fn: cn, Args: []string{"h"}}, Cont: &Term{Op: "wait", X: "r", Cont: g.pr(&Term{Op: "call", Fn: self, Args: []string{"t"}})}}}},
+			{"cons", "c", &Term{Op: "recv", X: "c", Y: "h", Z: "t", Cont: &Term{Op: "new", Y: "r", Body: g.cutCall(cn, []string{"h"}), Cont: &Term{Op: "wait", X: "r", Cont: g.pr(&Term{Op: "call", Fn: self, Args: []string{"t"}})}}}},
 		}}
 	case "srv":
 		cn := g.consFunc(g.libType("nat", m), q, 1)
@@ -393,7 +394,7 @@ func (g *G) recConsumer(T *Ty, q Mode, self string) *Term {
 			}
 			r, h, t, u := g.fresh("r"), g.fresh("h"), g.fresh("t"), g.fresh("u")
 			st := Send(m, g.libType("nat", m), T)
-			return &Term{Op: "new", Y: r, Ann: g.vary(st), Body: &Term{Op: "sel", X: x, Lbl: "next", Y: "self"}, Cont: &Term{Op: "recv", X: r, Y: h, Z: t, Cont: &Term{Op: "new", Y: u, Body: &Term{Op: "call", Fn: cn, Args: []string{h}}, Cont: &Term{Op: "wait", X: u, Cont: build(t, i-1)}}}}
+			return &Term{Op: "new", Y: r, Ann: g.vary(st), Body: &Term{Op: "sel", X: x, Lbl: "next", Y: "self"}, Cont: &Term{Op: "recv", X: r, Y: h, Z: t, Cont: &Term{Op: "new", Y: u, Body: g.cutCall(cn, []string{h}), Cont: &Term{Op: "wait", X: u, Cont: build(t, i-1)}}}}
 		}
 		return build("x", n)
 	}
@@ -413,7 +414,7 @@ func (g *G) srvFunc(A *Ty) string {
 	g.scope(func() {
 		wn, n := g.producer(g.libType("nat", A.M), 2)
 		f.Body = &Term{Op: "case", X: "self", Brs: []CaseBr{
-			{"next", "z", g.pr(wn(&Term{Op: "new", Y: "s2", Body: &Term{Op: "call", Fn: fn}, Cont: &Term{Op: "send", X: "self", Y: n, Z: "s2"}}))},
+			{"next", "z", g.pr(wn(&Term{Op: "new", Y: "s2", Body: g.cutCall(fn, nil), Cont: &Term{Op: "send", X: "self", Y: n, Z: "s2"}}))},
 			{"stop", "z", g.pr(&Term{Op: "close", X: "self"})},
 		}}
 	})
@@ -529,6 +530,13 @@ func (g *G) tailCall(ctx []Var, A *Ty, fuel int, self string) *Term {
 		args = append(args, g.pol(v.N, v.T))
 	}
 	g.helperBody(f, fuel-1)
+	if g.coin(g.O.CutFwd) {
+		// the same thing spelt as a cut followed by a forward: the callee is the target of a
+		// forward that may already be parked on its control channel when it takes its CALL step
+		g.feat("cut-fwd")
+		x := g.fresh("x")
+		return &Term{Op: "new", Y: x, Body: g.cutCall(f.Name, args), Cont: &Term{Op: "fwd", X: g.pol(g.selfRef(self), A), Y: g.pol(x, A)}}
+	}
 	g.feat("tailcall")
 	return g.callTerm(f, args, self, true)
 }
@@ -600,7 +608,7 @@ func (g *G) rightPosWithCtx(ctx []Var, A, U *Ty, fuel int, self string) *Term {
 			g.feat("cut-reuse")
 		}
 		return func(c *Term) *Term {
-			return &Term{Op: "new", Y: a, Body: &Term{Op: "call", Fn: f.Name, Args: args}, Cont: c}
+			return &Term{Op: "new", Y: a, Body: g.cutCall(f.Name, args), Cont: c}
 		}, a
 	}
 	ok := func(part []Var, T *Ty) bool {
@@ -673,7 +681,7 @@ func (g *G) elimX(ctx []Var, i int, A *Ty, fuel int, noDeleg bool, self string) 
 			g.feat("cut-reuse")
 		}
 		g.feat("consume")
-		return &Term{Op: "new", Y: u, Body: &Term{Op: "call", Fn: fn, Args: []string{g.pol(x.N, x.T)}}, Cont: &Term{Op: "wait", X: u, Cont: g.gen(rest, A, fuel, self)}}
+		return &Term{Op: "new", Y: u, Body: g.cutCall(fn, []string{g.pol(x.N, x.T)}), Cont: &Term{Op: "wait", X: u, Cont: g.gen(rest, A, fuel, self)}}
 	}
 	switch U.K {
 	case KUnit:
@@ -1019,7 +1027,7 @@ func (g *G) constructor(A, U *Ty, fuel int, a string) (func(*Term) *Term, string
 			return &Term{Op: "send", X: "self", Y: g.pol(ps[0].N, ps[0].T), Z: g.pol(ps[1].N, ps[1].T)}
 		})
 		return func(c *Term) *Term {
-			return w1(w2(&Term{Op: "new", Y: a, Body: &Term{Op: "call", Fn: fn, Args: []string{p1, p2}}, Cont: c}))
+			return w1(w2(&Term{Op: "new", Y: a, Body: g.cutCall(fn, []string{p1, p2}), Cont: c}))
 		}, a, true
 	case KPlus:
 		br := g.pickBranch(A, U, fuel)
@@ -1028,7 +1036,7 @@ func (g *G) constructor(A, U *Ty, fuel int, a string) (func(*Term) *Term, string
 			return &Term{Op: "sel", X: "self", Lbl: br.L, Y: g.pol(ps[0].N, ps[0].T)}
 		})
 		return func(c *Term) *Term {
-			return w(&Term{Op: "new", Y: a, Body: &Term{Op: "call", Fn: fn, Args: []string{p}}, Cont: c})
+			return w(&Term{Op: "new", Y: a, Body: g.cutCall(fn, []string{p}), Cont: c})
 		}, a, true
 	case KDown:
 		w, p := g.producer(U.L, fuel-1)
@@ -1036,7 +1044,7 @@ func (g *G) constructor(A, U *Ty, fuel int, a string) (func(*Term) *Term, string
 			return &Term{Op: "cast", X: "self", Y: g.pol(ps[0].N, ps[0].T)}
 		})
 		return func(c *Term) *Term {
-			return w(&Term{Op: "new", Y: a, Body: &Term{Op: "call", Fn: fn, Args: []string{p}}, Cont: c})
+			return w(&Term{Op: "new", Y: a, Body: g.cutCall(fn, []string{p}), Cont: c})
 		}, a, true
 	}
 	return nil, "", false
@@ -1072,5 +1080,15 @@ func (g *G) captureServer(ctx []Var, A *Ty, fuel int, self string) *Term {
 		return &Term{Op: "new", Y: r, Ann: Unit(m), Body: &Term{Op: "sel", X: s, Lbl: "go", Y: "self"}, Cont: &Term{Op: "wait", X: r, Cont: c}}
 	}
 	rest := g.gen(nil, A, fuel-1, self)
-	return &Term{Op: "new", Y: srv, Body: &Term{Op: "call", Fn: f.Name, Args: args}, Cont: &Term{Op: "split", X: srv, Y: s1, Z: s2, Cont: use(s1, r1, use(s2, r2, rest))}}
+	return &Term{Op: "new", Y: srv, Body: g.cutCall(f.Name, args), Cont: &Term{Op: "split", X: srv, Y: s1, Z: s2, Cont: use(s1, r1, use(s2, r2, rest))}}
+}
+
+// cutCall builds the call used as the body of a cut; with probability ExplicitSelf the
+// spawned process passes itself explicitly: x <- new f(self, args).
+func (g *G) cutCall(fn string, args []string) *Term {
+	if g.coin(g.O.ExplicitSelf) {
+		g.feat("explicit-self-in-cut")
+		return &Term{Op: "call", Fn: fn, Args: append([]string{"self"}, args...)}
+	}
+	return &Term{Op: "call", Fn: fn, Args: args}
 }
